@@ -897,14 +897,18 @@ class TmpPool:
         """
         Removes all created files from this pool and also the file system.
         """
-        for p in self._created_files:
+        # empty the list in place: processes that got the pool before the flush share this very list
+        while True:
+            try:
+                p = self._created_files.pop()
+            except IndexError:
+                break
+
             try:
                 os.remove(p)
             except FileNotFoundError:
                 # already removed
                 pass
-
-        self._created_files = self._manager.list() if self._multi_proc else []
 
 
 class FilePool(Mapping[str, IO]):
